@@ -52,12 +52,38 @@ def _held_during(steps, tid, kind):
     return seen and inside
 
 
+def _first_held(steps, tid, kind):
+    """is the first `kind` step of thread `tid` executed while that thread holds the lock?"""
+    held = False
+    for t, k in steps:
+        if t != tid:
+            continue
+        if k == 'acq':
+            held = True
+        elif k == 'rel':
+            held = False
+        elif k == kind:
+            return held
+    return False
+
+
+def _before(steps, tid, a, b, after=None):
+    """does thread `tid` execute its first `a` before its first `b` (both counted from its first `after` step on)?"""
+    seq = [k for t, k in steps if t == tid]
+    if after is not None:
+        if after not in seq:
+            return False
+        seq = seq[seq.index(after):]
+    return a in seq and b in seq and seq.index(a) < seq.index(b)
+
+
 def detect_variant():
     """Observed, not assumed: single-threaded probe runs on the real code under the scheduler.
          bit 0  compressUnderLock: in a compressed `send_text` the accesses to the shared zlib object
                 (`compress`, `flush`) happen while the thread holds the write lock
-         bit 1  closeAtomic: `close()` stores `closing = True` while it still holds the write lock AND the
-                reply path stores `closed = True` / `closing = False` under the lock
+         bit 1  closeAtomic: `close()` stores `closing = True` while it still holds the write lock (right
+                after the Close frame), the state checks of `session.write` read `closing` before
+                `closed`, AND the reply path stores `closed = True` before `closing = False`
        (the source shape is irrelevant; whatever refactoring produced it, the step log decides).
        The model variant only selects which compiled programs the correspondence compares against: a
        wrong guess shows up as model/real disagreements, never as a hidden failure."""
@@ -68,8 +94,8 @@ def detect_variant():
     r = sched.run_real(dict(z=1, progs=[['st1=' + m.encode().hex()]], schedule=[], mode='sync'))
     cu = _held_during(r['steps'], 0, 'z:compress') and _held_during(r['steps'], 0, 'z:flush')
     r2 = sched.run_real(dict(z=0, progs=[['cl=1000,'], ['rc=1000,']], schedule=[0] * 40 + [1] * 60, mode='sync'))
-    ca = (_held_during(r2['steps'], 0, 'wr:closing=1') and _held_during(r2['steps'], 1, 'wr:closed=1')
-          and _held_during(r2['steps'], 1, 'wr:closing=0'))
+    ca = (_first_held(r2['steps'], 0, 'wr:closing=1') and _before(r2['steps'], 1, 'wr:closed=1', 'wr:closing=0')
+          and _before(r2['steps'], 0, 'rd:closing', 'rd:closed', after='acq'))
     _VARIANT = ('1' if cu else '0') + ('1' if ca else '0')
     _VARIANT_EVIDENCE.update(compress_probe=' '.join('%d:%s' % s for s in r['steps']),
                              close_probe=' '.join('%d:%s' % s for s in r2['steps']))
